@@ -51,6 +51,22 @@ class Unit:
         return sum(1 for a, b in zip(tids, tids[1:]) if a != b) >= 2
     def post_check(self, prog, model_out, proj): return None   # extra check on the model's summary
 
+def _asan_site(errt):
+    """':<kind>@<file>:<function>' of the first library frame of an AddressSanitizer report ('' otherwise), so
+    that a crash is identified by where the library touched the dead object, not merely by the program"""
+    m = re.search(r"ERROR: AddressSanitizer: (\S+)", errt)
+    if not m:
+        return ""
+    for l in errt[m.end():].split("\n"):
+        if re.match(r"\s*(freed by|previously allocated|Thread T|SUMMARY)", l):
+            break
+        f = re.match(r"\s+#\d+ 0x[0-9a-f]+ in (.*) (\S+)$", l)
+        if f and re.search(r"/(include/unifex|source)/", f.group(2)):
+            fn = re.sub(r"[<(].*$", "", f.group(1)).split("::")[-1].strip()
+            return ":%s@%s:%s" % (m.group(1), f.group(2).split("/")[-1].split(":")[0], fn)
+    return ":" + m.group(1)
+
+
 def run_unit(chk, unit, key_prefix=None):
     kp = key_prefix or unit.name
     exe, err = vlib.build_driver(unit.driver, unit.cfg)
@@ -84,8 +100,8 @@ def run_unit(chk, unit, key_prefix=None):
         if rc not in (0, 3) :
             p = chk.replay_file("%s_crash_%s" % (unit.name, "_".join(prog)),
                                 {"kind": "driver-crash", "unit": unit.name, "program": prog, "rc": rc,
-                                 "stderr": errt[-3000:], "stdout_tail": out[-3000:], "replay": " ".join(cmd)})
-            chk.violation("%s/%s/crash" % (kp, "_".join(prog)), p, text="driver exited rc=%d: %s" % (rc, errt[-200:].replace("\n", " ")))
+                                 "stderr": (errt[errt.find("ERROR: AddressSanitizer"):][:4000] if "ERROR: AddressSanitizer" in errt else errt[-3000:]), "stdout_tail": out[-3000:], "replay": " ".join(cmd)})
+            chk.violation("%s/%s/crash%s" % (kp, "_".join(prog), _asan_site(errt)), p, text="driver exited rc=%d: %s" % (rc, errt[-200:].replace("\n", " ")))
             continue
         for l in lines:
             if l.startswith("STATS"):
